@@ -153,7 +153,11 @@ func (st *State) comp(name string, sortStr string) string {
 	if _, ok := st.compSig[name]; !ok {
 		st.compSig[name] = sortStr
 	}
-	n := fmt.Sprintf("%s@e%d", name, st.epoch)
+	ep := st.epoch
+	if strings.HasPrefix(name, "Ghost.") {
+		ep = 0 // ghost variables survive a havoc of the heap
+	}
+	n := fmt.Sprintf("%s@e%d", name, ep)
 	if tag, ok := st.lazyTag[name]; ok {
 		n = name + "@" + tag
 	}
@@ -207,7 +211,15 @@ func (st *State) havocComp(name string) {
 func (st *State) havocAll() {
 	*st.fresh++
 	st.epoch = *st.fresh
-	st.heap = map[string]string{}
+	// ghost variables (lock typestate ...) are not memory: a callee changes them only if
+	// its contract says so
+	keep := map[string]string{}
+	for k, v := range st.heap {
+		if strings.HasPrefix(k, "Ghost.") {
+			keep[k] = v
+		}
+	}
+	st.heap = keep
 	st.lazyTag = map[string]string{}
 	st.bumpAlloc()
 }
@@ -341,5 +353,13 @@ func (st *State) compAxiom(name, symbol, sortStr string, alloc Term) {
 	case strings.HasPrefix(sortStr, "(Array Int "):
 		sel := fmt.Sprintf("(select %s r)", symbol)
 		st.cmds = append(st.cmds, fmt.Sprintf("(assert (forall ((r Int)) (! %s :pattern (%s))))", inv(sel), sel))
+	}
+}
+
+// havocGhosts forgets the ghost variables (call of a sod function without contract).
+func (st *State) havocGhosts(names []string) {
+	for _, n := range names {
+		st.compSig["Ghost."+n] = "Int"
+		st.havocComp("Ghost." + n)
 	}
 }
